@@ -1347,7 +1347,7 @@ class Emitter:
         # anon structs may have been added during emission of structs: iterate to fixpoint
         st = self.emit_structs(self.used_types + [t for (t, _) in self.anon.values()])
         out = hdr + st + list(self.arr_typedefs.values()) + protos + gdecl + gl + bodies
-        if self.m.ctors:
+        if True:
             cl = [c for c in self.m.ctors if c in fs and c not in self.untranslated]
             out.append('void %sglobal_ctors(void) {\n%s\n}' % (self.pfx, '\n'.join('  %s();' % self.fname(c) for c in cl)))
         return '\n'.join(out) + '\n'
@@ -1419,6 +1419,23 @@ class Emitter:
         def goto(src, dst):
             return '%sgoto L_%s;' % (phi_moves(src, dst), san(dst))
 
+        # operator new(const) whose result is bitcast to a struct pointer of exactly that size: allocate a typed object
+        for lab, b in f.blocks.items():
+            for I in b:
+                if I['op'] == 'call' and I['callee'][0] == 'global' and I['callee'][1] in ('_Znwm', '_Znam') and I['res'] is not None \
+                        and len(I['args']) == 1 and I['args'][0][1][0] == 'int':
+                    N = I['args'][0][1][1]
+                    for bb in f.blocks.values():
+                        for I2 in bb:
+                            if I2['op'] == 'cast' and I2['cast'] == 'bitcast' and I2['a'] == ('local', I['res']):
+                                to = self.m.resolve(I2['to'])
+                                if to.k == 'ptr':
+                                    el = self.m.resolve(to.elem)
+                                    try:
+                                        if el.k == 'struct' and el.fields is not None and self.m.size(el) == N and I.get('typed_new') is None:
+                                            I['typed_new'] = el
+                                    except ValueError:
+                                        pass
         for lab, b in f.blocks.items():
             L.append('L_%s: ;' % san(lab))
             for I in b:
@@ -1602,6 +1619,11 @@ class Emitter:
                     L.append('  IR2C_TRAP();')
                 else:
                     raise NotImplementedError('intrinsic ' + base)
+                return L
+            if n in ('_Znwm', '_Znam') and I.get('typed_new') is not None and n not in self.replace:
+                r = declare(I, rt)
+                self.used_types.append(I['typed_new'])
+                L.append('  %s = (u8*)IR2C_NEW(%s);' % (r, self.ct(I['typed_new'])))
                 return L
             self.note_ext(n)
             a = [self.cv(t, v, ctx) for t, v in args]
